@@ -12,6 +12,7 @@ import (
 	"os"
 	"path/filepath"
 	"regexp"
+	"sort"
 	"strconv"
 	"strings"
 )
@@ -543,4 +544,159 @@ func genPruneRules(repo, out string) {
 	b.WriteString("]\n\nend Hk.Gen\n")
 	must(os.WriteFile(filepath.Join(out, "PruneRules.lean"), []byte(b.String()), 0o644))
 	must(os.WriteFile(filepath.Join(out, "prune_rules.json"), []byte("["+strings.Join(js, ",")+"]\n"), 0o644))
+}
+
+// genPgTransitions reads every statement of postgres.go that changes or removes rows of queue_items together with the state
+// constants bound to its placeholders: UPDATE … SET state = $k … [state = $j | state = ANY($j)] gives (function, to-state,
+// from-states), DELETE … state = $j gives (function, states). PostgreSQL's numbered placeholders make the binding exact.
+func genPgTransitions(repo, out string) {
+	consts := stateConsts(repo)
+	_, f := parseFile(filepath.Join(repo, "internal/queue/postgres.go"))
+	ws := regexp.MustCompile(`\s+`)
+	reTo := regexp.MustCompile(`\bset state = \$(\d+)`)
+	reFrom := regexp.MustCompile(`\bstate = (?:any\()?\$(\d+)\)?`)
+	statesIn := func(e ast.Expr) []string {
+		var o []string
+		ast.Inspect(e, func(n ast.Node) bool {
+			if id, ok := n.(*ast.Ident); ok {
+				if v, ok := consts[id.Name]; ok {
+					o = append(o, v)
+				}
+			}
+			return true
+		})
+		return o
+	}
+	var ups, dels []string
+	for _, d := range f.Decls {
+		fd, ok := d.(*ast.FuncDecl)
+		if !ok || fd.Body == nil {
+			continue
+		}
+		ast.Inspect(fd.Body, func(n ast.Node) bool {
+			ce, ok := n.(*ast.CallExpr)
+			if !ok {
+				return true
+			}
+			for i, a := range ce.Args {
+				s, ok := strLit(a)
+				if !ok {
+					continue
+				}
+				t := strings.ToLower(ws.ReplaceAllString(strings.TrimSpace(s), " "))
+				arg := func(k string) ([]string, bool) {
+					n, _ := strconv.Atoi(k)
+					if i+n >= len(ce.Args) {
+						return nil, false
+					}
+					st := statesIn(ce.Args[i+n])
+					return st, len(st) > 0
+				}
+				switch {
+				case strings.HasPrefix(t, "update queue_items"):
+					m := reTo.FindStringSubmatch(t)
+					if m == nil {
+						continue // does not assign state
+					}
+					to, ok := arg(m[1])
+					if !ok || len(to) != 1 {
+						check(fmt.Errorf("postgres.go %s: the state assigned by an UPDATE is not a State constant", fd.Name.Name))
+					}
+					var from []string
+					where := t
+					if j := strings.Index(t, " where "); j >= 0 {
+						where = t[j:]
+					}
+					if fm := reFrom.FindStringSubmatch(where); fm != nil {
+						from, ok = arg(fm[1])
+						if !ok {
+							check(fmt.Errorf("postgres.go %s: the state guard of an UPDATE is not bound to State constants", fd.Name.Name))
+						}
+					}
+					ups = append(ups, fmt.Sprintf("  (%s, %s, %s)", leanStr(fd.Name.Name), leanStr(to[0]), leanList(from)))
+				case strings.HasPrefix(t, "delete from queue_items"):
+					var st []string
+					if fm := reFrom.FindStringSubmatch(t); fm != nil {
+						st, ok = arg(fm[1])
+						if !ok {
+							check(fmt.Errorf("postgres.go %s: the state guard of a DELETE is not bound to State constants", fd.Name.Name))
+						}
+					}
+					dels = append(dels, fmt.Sprintf("  (%s, %s)", leanStr(fd.Name.Name), leanList(st)))
+				}
+			}
+			return true
+		})
+	}
+	if len(ups) == 0 || len(dels) == 0 {
+		check(fmt.Errorf("postgres.go: no state-changing statements found"))
+	}
+	var b strings.Builder
+	b.WriteString("/- GENERATED by /verif/extract — every statement of postgres.go that changes the state of, or removes, rows of queue_items, with the State constants bound to its placeholders. do not edit. -/\nnamespace Hk.Gen\n\n")
+	b.WriteString("/-- (function, state assigned, states the WHERE clause admits; [] = no state guard in the statement) -/\ndef pgUpdates : List (String × String × List String) := [\n" + strings.Join(ups, ",\n") + "]\n\n")
+	b.WriteString("/-- (function, states the WHERE clause admits; [] = no state guard) -/\ndef pgDeletes : List (String × List String) := [\n" + strings.Join(dels, ",\n") + "]\n\nend Hk.Gen\n")
+	must(os.WriteFile(filepath.Join(out, "PgTransitions.lean"), []byte(b.String()), 0o644))
+}
+
+// genIngressGates reads the ingress handler as the sequence of its gates: in source order, every call of a per-route accessor
+// or verifier, every status written and every return of ServeHTTP. `Props/IngressGates.lean` proves over that sequence that
+// the gates come in the order of the model's `flow`, that nothing follows a refusal, and that the store is only reached
+// after the last authenticator.
+func genIngressGates(repo, out string) {
+	path := filepath.Join(repo, "internal/ingress/http.go")
+	fset, f := parseFile(path)
+	var fd *ast.FuncDecl
+	for _, d := range f.Decls {
+		if x, ok := d.(*ast.FuncDecl); ok && x.Name.Name == "ServeHTTP" && x.Recv != nil {
+			fd = x
+		}
+	}
+	if fd == nil {
+		check(fmt.Errorf("ingress/http.go: no ServeHTTP"))
+	}
+	type ev struct {
+		pos  int
+		text string
+	}
+	var evs []ev
+	gate := map[string]bool{"resolveRoute": true, "AllowedMethodsFor": true, "AllowRequestFor": true, "AllowEnqueueFor": true, "BasicAuthFor": true,
+		"LimitsFor": true, "ForwardAuthFor": true, "HMACAuthFor": true, "TargetsFor": true, "Verify": true, "Check": true, "Authorize": true,
+		"ReadAll": true, "MaxBytesReader": true, "Enqueue": true, "EnqueueBatch": true}
+	ast.Inspect(fd.Body, func(n ast.Node) bool {
+		switch x := n.(type) {
+		case *ast.FuncLit:
+			return false // deferred / helper closures are not part of the straight-line handler
+		case *ast.ReturnStmt:
+			evs = append(evs, ev{fset.Position(x.Pos()).Offset, "return"})
+		case *ast.CallExpr:
+			se, ok := x.Fun.(*ast.SelectorExpr)
+			if !ok {
+				return true
+			}
+			switch {
+			case se.Sel.Name == "WriteHeader" && len(x.Args) == 1:
+				st := "var"
+				if a, ok := x.Args[0].(*ast.SelectorExpr); ok {
+					st = a.Sel.Name
+				}
+				evs = append(evs, ev{fset.Position(x.Pos()).Offset, "write:" + st})
+			case gate[se.Sel.Name]:
+				evs = append(evs, ev{fset.Position(x.Pos()).Offset, "call:" + se.Sel.Name})
+			}
+		}
+		return true
+	})
+	sort.Slice(evs, func(i, j int) bool { return evs[i].pos < evs[j].pos })
+	var xs []string
+	for _, e := range evs {
+		kind, name := e.text, ""
+		if i := strings.Index(e.text, ":"); i >= 0 {
+			kind, name = e.text[:i], e.text[i+1:]
+		}
+		xs = append(xs, fmt.Sprintf("(%s, %s)", leanStr(kind), leanStr(name)))
+	}
+	var b strings.Builder
+	b.WriteString("/- GENERATED by /verif/extract — the ingress handler (internal/ingress/http.go ServeHTTP) as the source-order sequence of its gate calls, status writes and returns. do not edit. -/\nnamespace Hk.Gen\n\n")
+	b.WriteString("/-- (kind, name): (\"call\", accessor or verifier), (\"write\", status constant or \"var\"), (\"return\", \"\") -/\ndef ingressEvents : List (String × String) := [" + strings.Join(xs, ", ") + "]\n\nend Hk.Gen\n")
+	must(os.WriteFile(filepath.Join(out, "IngressGates.lean"), []byte(b.String()), 0o644))
 }
